@@ -205,6 +205,17 @@ pub fn c13(rng: &mut Rng, tier: &str, idx: usize) -> Case {
             c.stat("modifier_roots_changed_between_queries", 1);
         }
     }
+    // the CATEGORIES of the ontology are customised and then set back to the defaults between
+    // queries on the same ontology object
+    if rng.chance(1, 3) && !sets.is_empty() {
+        for v in [ids(ids_all.iter().copied().filter(|x| *x != 1 && *x != 118 && rng.chance(1, 3))), "def".to_string(), "-".to_string(), "def".to_string()] {
+            c.op(format!("setcat 0 {v}"));
+            let l = ids(rng.pick(&sets).clone());
+            c.op(format!("setq 0 {l} categories,show"));
+            c.op(format!("oracle set 0 {l}"));
+            c.stat("categories_changed_between_queries", 1);
+        }
+    }
     // a few sets with a member that is not a term: every operation that looks it up panics
     if rng.chance(1, 4) {
         let mut s: Vec<u32> = ids_all.iter().copied().filter(|_| rng.chance(1, 3)).collect();
@@ -541,7 +552,8 @@ fn c18_long(rng: &mut Rng, lists: bool) -> Case {
         c.op(format!("term 1 {}", name("All")));
         c.op(format!("term 118 {}", name("Phenotypic abnormality")));
         for (i, id) in ids_all.iter().enumerate() {
-            let nm = if !lists && i == 0 { if slot == 0 { long_a.clone() } else { long_b.clone() } } else { format!("t{i}") };
+            // (short names with multi-byte characters: byte length and character count differ)
+            let nm = if !lists && i == 0 { if slot == 0 { long_a.clone() } else { long_b.clone() } } else if i % 3 == 2 { format!("t{i} Ünïcödé 日本") } else { format!("t{i}") };
             c.op(format!("term {} {}", id, name(&nm)));
             if slot == 0 && i == 1 {
                 // the same id defined once more under another name: the first definition stays
@@ -568,8 +580,10 @@ fn c18_long(rng: &mut Rng, lists: bool) -> Case {
             } else {
                 ids_all[..ids_all.len() - cut].to_vec()
             };
-            for t in terms {
-                c.op(format!("ann {kind} 7 {} {t}", name(&rname)));
+            for (j, t) in terms.iter().enumerate() {
+                // (the last call carries another name: the record keeps its first name and all terms)
+                let nm = if j + 1 == terms.len() && j > 0 { "a later spelling".to_string() } else { rname.clone() };
+                c.op(format!("ann {kind} 7 {} {t}", name(&nm)));
             }
         }
         c.op("ic".to_string());
